@@ -448,3 +448,10 @@ Example C07_example_two_orders :
   | _, _ => false
   end = true.
 Proof. vm_compute. reflexivity. Qed.
+
+(** The decision-critical functions of the anchored code have exactly the decisions the source tie knows about
+    (go2coq manifests, regenerated from /repo on every check; statement in SourceManifest.v). *)
+From Kardia Require Import C07.SourceManifest.
+Theorem C07_source_manifest : C07_source_manifest_statement.
+Proof. exact C07_source_manifest_proof. Qed.
+Print Assumptions C07_source_manifest.
